@@ -301,6 +301,16 @@ func c16Property(t *rapid.T) {
 			if ruleCand != "" && rapid.IntRange(0, 4).Draw(t, "ruleUpdate") == 0 {
 				op, obj = "rule-update", "chainA"
 			}
+			if op != "register" && op != "register-again" && !reRegister && rapid.IntRange(0, 4).Draw(t, "nestedLogout") == 0 {
+				// a service's logout proposal is open: its chain asks for its own logout as well (the two proposals are then
+				// concluded in either order, see "conclude")
+				for _, p := range r.open {
+					if p.op == "logout" && strings.Contains(p.obj, ":") {
+						op, obj = "logout", chainOf(p.obj)
+						break
+					}
+				}
+			}
 			chain := chainOf(obj)
 			gov, own := w.N.Admins[rapid.IntRange(0, 3).Draw(t, "admin")], sim.ChainAdmins[chain]
 			var tx *pb.BxhTransaction
@@ -376,9 +386,23 @@ func c16Property(t *rapid.T) {
 				t.Skip("no open proposal")
 			}
 			i := rapid.IntRange(0, len(r.open)-1).Draw(t, "proposal")
+			forceReject := false
+			if rapid.IntRange(0, 2).Draw(t, "nestedFirst") == 0 {
+				// a service's logout is rejected while the logout of its chain is still open
+				for j, q := range r.open {
+					if q.op != "logout" || !strings.Contains(q.obj, ":") {
+						continue
+					}
+					for _, c := range r.open {
+						if c.op == "logout" && c.obj == chainOf(q.obj) {
+							i, forceReject = j, true
+						}
+					}
+				}
+			}
 			p := r.open[i]
 			r.open = append(r.open[:i:i], r.open[i+1:]...)
-			approve := rapid.IntRange(0, 3).Draw(t, "approve") != 0
+			approve := rapid.IntRange(0, 3).Draw(t, "approve") != 0 && !forceReject
 			var txs []pb.Transaction
 			for a := 0; a < 3; a++ {
 				txs = append(txs, w.VoteTx(w.N.Admins[a], p.id, approve))
